@@ -835,6 +835,20 @@ where
 #[derive(Copy, Clone)]
 pub struct Memoized<A> {
     pub(crate) parser: A,
+    // Identifies this memoized parser (and its clones) in the memoization table. The address of `parser` cannot: it is
+    // shared by a memoized parser memoized again and by neighbouring zero-sized parsers
+    pub(crate) id: usize,
+}
+
+#[cfg(feature = "memoization")]
+impl<A> Memoized<A> {
+    pub(crate) fn new(parser: A) -> Self {
+        static NEXT_ID: core::sync::atomic::AtomicUsize = core::sync::atomic::AtomicUsize::new(0);
+        Self {
+            parser,
+            id: NEXT_ID.fetch_add(1, core::sync::atomic::Ordering::Relaxed),
+        }
+    }
 }
 
 #[cfg(feature = "memoization")]
@@ -848,11 +862,7 @@ where
     #[inline(always)]
     fn go<M: Mode>(&self, inp: &mut InputRef<'src, '_, I, E>) -> PResult<M, O> {
         let before = inp.cursor();
-        // TODO: Don't use address, since this might not be constant?
-        let key = (
-            I::cursor_location(&before.inner),
-            &self.parser as *const _ as *const () as usize,
-        );
+        let key = (I::cursor_location(&before.inner), self.id);
 
         // Shelter the pending ('alt') error of whatever came before: the memoized parser runs on a fresh one, so that
         // what gets cached is its own error only, and the sheltered error is merged back on every path
